@@ -707,6 +707,7 @@ CORPUS = [
     'N1T N2S I1,5=2 K-2 N3E N4S I3,7=4 K-4 G H D1,5 D3,7 G H',
     'N1Y N2S I1,2=2 K-2 N3Z N4R I3,4=4 K-4 N5S I3,5=5 K-5 G H D1,2 D3,4 G H',      # pointers held by Table / Tree KEYS
     'N1R! N2S P1.0=2 K-1 K-2 G H M100 G P1.0=0 G H',
+    'N1U N2u I1,0=2 K-2 N3S I1,0=3 K-3 E X1 E N4S E',       # explicit del of a Tuple that holds a raw Tuple
     'N1U N2s N3S P2.0=3 I1,0=2 K-3 K-2 N4r N5R P4.0=5 N6u I6,0=4 I1,0=6 K-6 K-5 K-4 G H K-1 G',
 ]
 
